@@ -1,8 +1,8 @@
 import Aiorpcx.Common.Hex
 import Aiorpcx.C08.Model
 /-! Line-protocol driver for the C08 lifecycle model.
-    in : `<sent_request_timeout> <processing_timeout> <stalled 0|1> <default force_after>
-          <fixed 0|1> ; <event> ; ...`   (fixed: repair F25 applied / code as pinned)
+    in : `<sent_request_timeout> <processing_timeout> <outgoing limit> <stalled 0|1>
+          <default force_after> <fixed 0|1> ; <event> ; ...`   (fixed: repair F25 applied / code as pinned)
          events: `Q i` `W i` `B i r` `C i fa` `X i` `D i` (request with a quick / waiting /
          stubborn / closing / aborting / reply-and-disconnect handler; `D` closes with the
          default force_after after replying) `NQ i` `NW i` (notifications) `BT i j` (batch
@@ -51,6 +51,7 @@ def b01 (b : Bool) : String := if b then "1" else "0"
 
 def tstr : TStatus → String
   | .pending => "pending"
+  | .queued => "pending"
   | .answered => "answered"
   | .cancelled => "cancelled"
   | .timedOut t => s!"timedOut@{t}"
@@ -72,15 +73,16 @@ def handle (line : String) : String :=
   match (line.splitOn ";").map (·.trimAscii.toString) with
   | hd :: evs =>
     match (hd.splitOn " ").filter (· ≠ "") with
-    | [rt, pt, st, dfa, fx] =>
-      match rt.toNat?, pt.toNat?, dfa.toNat?, evs.mapM (parseEvent (dfa.toNat?.getD 30)) with
-      | some t, some p, some _, some ess =>
+    | [rt, pt, ol, st, dfa, fx] =>
+      match rt.toNat?, pt.toNat?, ol.toNat?, dfa.toNat?,
+            evs.mapM (parseEvent (dfa.toNat?.getD 30)) with
+      | some t, some p, some l, some _, some ess =>
         let rec go (s : S) : List (List Event) → List String
           | [] => []
           | es :: rest => let s1 := run s es; record s1 :: go s1 rest
         String.intercalate " ; "
-          (go (if fx == "1" then init t p (st == "1") else initPinned t p (st == "1")) ess)
-      | _, _, _, _ => "bad-op"
+          (go (if fx == "1" then init t p l (st == "1") else initPinned t p l (st == "1")) ess)
+      | _, _, _, _, _ => "bad-op"
     | _ => "bad-op"
   | _ => "bad-op"
 
